@@ -1,6 +1,6 @@
 //@ tu: libxcm/tp/common/active_fd.c
 //@ enforce: active_fd_put
-//@ unwindset: active_fd_put.0:3
+//@ pre-unwind: active_fd_put.2:3
 //@ bounded: the process-wide active_fds list holds at most 2 nodes on entry (user counts arbitrary in 1..MAX_USERS_PER_FD)
 //@ props: C08 C15
 //@ expect: postcondition>=7 canary=4
